@@ -393,3 +393,22 @@ OTHER_CONV (idn2_to_unicode_8z8z)
 OTHER_CONV (idn2_to_unicode_8zlz)
 OTHER_CONV (idn2_to_unicode_lzlz)
 #endif
+
+/* ------------------------------------------------------------------ edge coverage of the library objects
+ * (-fsanitize-coverage=trace-pc-guard on the library sources only): which edges has this process reached?  Used by the
+ * corpus-growing front end: an input that reaches a new edge is kept. */
+#define COV_MAX (1u << 16)
+static unsigned char cov_seen[COV_MAX]; static unsigned cov_n_guards, cov_n_hit; unsigned g_sim_cov_new;
+void __sanitizer_cov_trace_pc_guard_init (unsigned *start, unsigned *stop)
+{
+    if (start == stop || *start) return;
+    for (unsigned *x = start; x < stop; x++) *x = (++cov_n_guards < COV_MAX) ? cov_n_guards : COV_MAX - 1;
+}
+void __sanitizer_cov_trace_pc_guard (unsigned *guard)
+{
+    unsigned g = *guard;
+    if (!g || cov_seen[g]) return;
+    cov_seen[g] = 1; cov_n_hit++; g_sim_cov_new++;
+}
+unsigned sim_cov_edges_hit (void) { return cov_n_hit; }
+unsigned sim_cov_edges_total (void) { return cov_n_guards; }
